@@ -216,17 +216,33 @@ func symxC15A() {
 	crashAt := int(rt.Int("crash_at", -1, int64(rt.Param("crash_max", 12))))
 	h1, inProg, crashed := symxIncarnation(l, crashAt)
 	l.next += uint64(rt.Int("appended_later", 0, 2))
+	var hMid []uint64
+	if rt.Param("crashes", 1) >= 2 {
+		// a second life that is killed as well, at its own solver-chosen position
+		var crashedMid bool
+		var inProgMid int64
+		hMid, inProgMid, crashedMid = symxIncarnation(l, int(rt.Int("crash_at_2", -1, int64(rt.Param("crash_max", 12)))))
+		if crashedMid {
+			crashed, inProg = true, inProgMid
+		} else if len(hMid) > 0 {
+			crashed, inProg = false, -1
+		}
+	}
 	h2, _, crashed2 := symxIncarnation(l, -1)
 	rt.Assert(!crashed2, "C15.restart_completes")
-	for k := 1; k < len(h1); k++ {
-		rt.Assert(h1[k] == h1[k-1]+1, "C15.log_order_within_a_run")
+	for _, h := range [][]uint64{h1, hMid, h2} {
+		for k := 1; k < len(h); k++ {
+			rt.Assert(h[k] == h[k-1]+1, "C15.log_order_within_a_run")
+		}
 	}
-	for k := 1; k < len(h2); k++ {
-		rt.Assert(h2[k] == h2[k-1]+1, "C15.log_order_within_a_run")
-	}
-	// at least once: every pending offset is handed over by run 1 or run 2
+	// at least once: every pending offset is handed over by some run
 	count := func(o uint64) (n1, n2 int) {
 		for _, x := range h1 {
+			if x == o {
+				n1++
+			}
+		}
+		for _, x := range hMid {
 			if x == o {
 				n1++
 			}
@@ -245,12 +261,18 @@ func symxC15A() {
 	}
 	// a restart replays at most the message that was being processed when the process stopped
 	replayed := 0
+	prev := h1
+	if rt.Param("crashes", 1) >= 2 {
+		prev = hMid // the last restart is measured against the life that preceded it
+	}
 	for _, o := range h2 {
-		if n1, _ := count(o); n1 > 0 {
-			replayed++
+		for _, x := range prev {
+			if x == o {
+				replayed++
+			}
 		}
 	}
-	if !fresh && len(h2) > 0 && h2[0] == stored && len(h1) == 0 {
+	if rt.Param("crashes", 1) < 2 && !fresh && len(h2) > 0 && h2[0] == stored && len(h1) == 0 {
 		replayed++ // the entry at the stored offset was completed by an earlier life
 	}
 	allowed := 0
